@@ -54,6 +54,7 @@ type Ctx struct {
 	mu      sync.Mutex
 	finds   []Finding
 	seenKey map[string]int
+	knownKeys map[string]bool
 	ev      Evidence
 	notes   []string
 	incon   []string
@@ -101,8 +102,19 @@ func (c *Ctx) Violation(key, what string, replay interface{}) {
 func (c *Ctx) Saturated() bool {
 	c.mu.Lock()
 	defer c.mu.Unlock()
+	if c.knownKeys == nil {
+		c.knownKeys = map[string]bool{}
+		for _, k := range loadKnown() {
+			if k.Property == c.ID && k.Status == "known" {
+				c.knownKeys[k.Key] = true
+			}
+		}
+	}
 	n := 0
-	for _, v := range c.seenKey {
+	for k, v := range c.seenKey {
+		if c.knownKeys[k] {
+			continue // a listed finding is reported once and must not stop the exploration of everything else
+		}
 		n += v
 	}
 	return n >= 40
